@@ -234,9 +234,17 @@ func c11timeout(c *Ctx) {
 		}
 	})
 	r.Check("C11.timeout-paths", shortFn(fn), "timeout-leaves-no-trace", fn.Pos(), ok && nTO >= 2 && nSel > 0 && nZero > 0, why)
+	t.noSharedBeforeLock("C11.timeout-paths")
+}
+
+// noSharedBeforeLock: WriteControl builds its frame in memory private to the
+// call; nothing reachable from the Conn is written before Conn.mu is held.
+func (t *transport) noSharedBeforeLock(rule string) {
+	c, r := t.c, t.c.R
+	fn := c.fn("(*Conn).WriteControl")
 	// state before the lock: WriteControl must not write shared fields before acquiring mu
 	ok2, why2 := true, "no Conn field is written before Conn.mu is held"
-	c.explore("C11.timeout-paths", fn, core.Opts{Pure: c.pureSet("isControl", "isData")}, func(p *core.Path) {
+	c.explore(rule, fn, core.Opts{Pure: c.pureSet("isControl", "isData")}, func(p *core.Path) {
 		acq, has := muAcquire(p, t.mu, len(p.Events))
 		end := len(p.Events)
 		if has {
@@ -252,7 +260,7 @@ func c11timeout(c *Ctx) {
 			}
 		}
 	})
-	r.Check("C11.timeout-paths", shortFn(fn), "no-shared-writes-before-lock", fn.Pos(), ok2, why2)
+	r.Check(rule, shortFn(fn), "no-shared-writes-before-lock", fn.Pos(), ok2, why2)
 }
 
 func addrRootIsConnField(a *core.Term) bool {
